@@ -769,5 +769,36 @@ example : C02.Budget exR ∧ BudScripts exR :=
     (.loop 200 (.run 30 (.init .start)))
 example : (exR.dev 0).produced = 6 ∧ (exR.dev 0).maxParts = some 6 := by decide +kernel
 
+/-! ### the budget adjustment of the model and of the repaired library (finding F16)
+
+`World.adjustParts` clamps the new maximum to the number of produced parts on EVERY adjustment
+(`max (m + v) produced`), as the library did before the repair `ddb5098`; the repaired library clamps
+only a DECREASE (`m + v`, and `max (m + v) produced` when `v < 0`).  The two differ only when
+`m < produced` (a source created with a negative amount).  Under `C02.Budget` -- which holds in every
+reachable world (`budget_reachable_dyn`) -- they are the same function. -/
+
+/-- The library's formula after the repair. -/
+def libAdjust (m v produced : Int) : Int := if v < 0 then max (m + v) produced else m + v
+
+/-- The model's formula (the body of `World.adjustParts`). -/
+def modelAdjust (m v produced : Int) : Int := if m + v < produced then produced else m + v
+
+theorem adjust_model_eq_library (m v produced : Int) (h : produced ≤ m) :
+    modelAdjust m v produced = libAdjust m v produced := by
+  unfold modelAdjust libAdjust
+  split <;> split <;> omega
+
+/-- `World.adjustParts` uses exactly `modelAdjust` for the new maximum. -/
+theorem adjustParts_unfold (w : World) (x : Nat) (v m : Int) (hm : (w.dev x).maxParts = some m) :
+    w.adjustParts x v =
+      (let w1 := w.setDev x { w.dev x with maxParts := some (modelAdjust m v (w.dev x).produced) }
+       if decide (m - (w.dev x).produced < 1) then w1.schedulePass x 0 else w1) := by
+  unfold World.adjustParts modelAdjust
+  simp only [hm]
+
+/-- The two formulas DO differ without the invariant (the situation of finding F16): a deficit of 3,
+topped up by 2. -/
+theorem adjust_differs_without_budget : modelAdjust (-3) 2 0 = 0 ∧ libAdjust (-3) 2 0 = -1 := by decide
+
 end C02W
 end SimProc
